@@ -32,7 +32,7 @@ import fw
 
 ID = 'C18'
 LEVEL = 'proof'
-LEAN_TARGETS = ['BareProofs.C18']
+LEAN_TARGETS = ['BareProofs.C18', 'BareProofs.C18Sem']
 DRIVER = 'drv_c18'
 DRIVER_ROOT = 'Drv.C18'
 GEN = []
@@ -45,6 +45,19 @@ THEOREMS = [
     'C18.redefinition_exact_labels', 'C18.redefinition_exact_functions', 'C18.redefinition_exact_args',
     'C18.redefined_iff_defined_twice',
     'C18.pointless_exact', 'C18.lint_function_block', 'C18.mem_lint_scoped',
+    # semantic half (BareProofs/C18Sem.lean): acting on a warning preserves every run
+    'C18.evalExpr_pointless', 'C18.evalExpr_sim', 'C18.runTree_sim', 'C18.exec_step_sim',
+    'C18.delete_sim', 'C18.delete_sim_call', 'C18.delete_sim_count', 'C18.delete_runs', 'C18.delete_runs_budget',
+    'C18.delete_skippable_runs',
+    'C18.delete_unused_label', 'C18.delete_unused_label_findLabel', 'C18.delete_unused_label_fn',
+    'C18.delete_pointless_stmt', 'C18.delete_pointless_stmt_fn',
+    'C18.rename_sim', 'C18.rename_unused_local', 'C18.rename_unused_arg',
+    'C18.runsTo_mirror', 'C18.rename_unused_local_mirror', 'C18.rename_unused_arg_mirror',
+    'C18.unused_variable_exact', 'C18.unused_argument_exact',
+    'C18.lint_unused_label_sound', 'C18.lint_pointless_sound', 'C18.lint_delete_sound_budget',
+    'C18.lint_unused_variable_sound', 'C18.lint_unused_argument_sound',
+    'C18.Tiny.delete_changes_count_only', 'C18.Tiny.delete_budget_counterexample',
+    'C18.Tiny.rename_read_target_counterexample',
 ]
 ASSUMPTIONS = [
     'Python str order (sorted) = code-point lexicographic order = Lean String order on the rendered names (tied by the correspondence, '
